@@ -323,6 +323,13 @@ func checkGeneratedJoinShape(c *Ctx) {
 				c.fail(rule, name+"/no-Refilter-on-construction-path", c.P.instrPos(e.In), name+" invokes its refiltering handler "+fnName(e.Fn)+" on its straight-line construction path (not from a monitor callback): a filter computed from a source that is not ready yet makes the join ready over the wrong content")
 			}
 		}
+		// … nor from a goroutine the join starts (its lifetime tie): only a monitor callback, which
+		// runs after the source is ready and in event order, may compute and install a filter
+		for _, gb := range goBodiesOf(fn) {
+			c.sites++
+			c.check(!closureRefilters(gb.Fn), rule, name+"/no-Refilter-from-a-goroutine/"+spawnName(c.P, gb.Fn), c.P.instrPos(gb.Go), "the join's goroutine only ties lifetimes",
+				name+" starts a goroutine ("+fnName(gb.Fn)+") that refilters the join: a refilter that does not come from a monitor callback can make the join ready before its source is, or install a selection computed from a source that is gone")
+		}
 		for _, s := range []string{"OnInitialize", "OnCreate", "OnUpdate", "OnDelete"} {
 			c.check(slots[s] != nil && slots[s].K == "closure", rule, name+"/handler-slot-"+s, pos, "", name+" does not register a handler for "+s+": source changes of that kind would not update the join")
 		}
